@@ -37,8 +37,12 @@ fn pinned_root() -> Cert {
 
 /// TLS server answering one HTTP request per connection
 fn tls_server(ident: &str) -> u16 {
+    tls_server_on("127.0.0.1:0", ident)
+}
+
+fn tls_server_on(bind: &str, ident: &str) -> u16 {
     let acceptor = Arc::new(native_tls::TlsAcceptor::new(identity(ident)).unwrap());
-    let l = TcpListener::bind("127.0.0.1:0").unwrap();
+    let l = TcpListener::bind(bind).unwrap();
     let port = l.local_addr().unwrap().port();
     std::thread::spawn(move || {
         l.set_nonblocking(true).ok();
@@ -200,11 +204,13 @@ pub fn generate(_seed: u64, tier: &str, sink: &mut Sink) {
     // accepted unless the name matches or a flag waives it.
     let chains = [("good", true, true), ("selfsigned", false, true), ("unknown", false, true), ("expired", true, false), ("pinned", true, true)];
     let ports: Vec<u16> = chains.iter().map(|c| tls_server(if c.0 == "pinned" { "selfsigned" } else { c.0 })).collect();
+    // the same identities on the IPv6 loopback, for URLs whose host is an IPv6 literal (no certificate lists ::1)
+    let ports6: Vec<u16> = chains.iter().map(|c| tls_server_on("[::1]:0", if c.0 == "pinned" { "selfsigned" } else { c.0 })).collect();
     let proxies: Vec<u16> = ports.iter().map(|p| connect_proxy(*p)).collect();
     let tls_proxies: Vec<u16> = ports.iter().map(|p| tls_connect_proxy(*p)).collect();
     std::thread::sleep(Duration::from_millis(50));
     for (ci, (chain, chain_ok_with_root, time_ok)) in chains.iter().enumerate() {
-        for name_ok in [true, false] {
+        for (name_ok, host_kind) in [(true, "dns"), (false, "dns"), (false, "ipv6-literal")] {
             for aic in [false, true] {
                 for aih in [false, true] {
                     for root_added in [false, true] {
@@ -216,12 +222,20 @@ pub fn generate(_seed: u64, tier: &str, sink: &mut Sink) {
                                 if mode == "https-proxy" && *chain == "pinned" {
                                     continue;
                                 }
+                                let ip6 = host_kind == "ipv6-literal";
+                                if ip6 && (mode == "https-proxy" || place == "sibling" || (!thorough && place == "request" && mode == "connect")) {
+                                    continue;
+                                }
                                 if !thorough && mode == "https-proxy" && (place == "request" || (*chain == "unknown")) {
                                     continue;
                                 }
-                                let host = if name_ok { "good.test" } else { "other.test" };
-                                attohttpc::verif_hooks::set_resolver_override(host, vec![std::net::SocketAddr::from(([127, 0, 0, 1], ports[ci]))]);
-                                let url = format!("https://{}:{}/", host, ports[ci]);
+                                let host = if ip6 { "[::1]" } else if name_ok { "good.test" } else { "other.test" };
+                                if !ip6 {
+                                    attohttpc::verif_hooks::set_resolver_override(host, vec![std::net::SocketAddr::from(([127, 0, 0, 1], ports[ci]))]);
+                                }
+                                // directly the IPv6 listener is dialled; through the proxy the CONNECT names [::1]:port and the
+                                // proxy relays to the IPv4 listener with the same identity
+                                let url = format!("https://{}:{}/", host, if ip6 && mode == "direct" { ports6[ci] } else { ports[ci] });
                                 let mut sess = attohttpc::Session::new();
                                 sess.connect_timeout(Duration::from_secs(2));
                                 sess.read_timeout(Duration::from_secs(2));
@@ -292,7 +306,9 @@ pub fn generate(_seed: u64, tier: &str, sink: &mut Sink) {
                                 let proxy_ok = mode != "https-proxy" || eff_root || eff_aic;
                                 let want = origin_ok && proxy_ok;
                                 let pinned = *chain == "pinned";
-                                let o = if accepted == want || (pinned && !accepted) {
+                                // an IPv6-literal host: judged one way only (it must not be accepted unless the statement allows
+                                // it); whether a literal that a certificate does list verifies is the backend's business
+                                let o = if accepted == want || ((pinned || ip6) && !accepted) {
                                     Ok(())
                                 } else if accepted {
                                     let why = if !chain_ok { "untrusted-chain" } else if !*time_ok { "expired" } else { "wrong-name" };
@@ -301,9 +317,9 @@ pub fn generate(_seed: u64, tier: &str, sink: &mut Sink) {
                                     Err((format!("rejected-valid-{}", mode), format!("chain {} name_ok {} aic {} aih {} root {} via {} set on {}: {}", chain, name_ok, aic, aih, root_added, mode, place, err_kind)))
                                 };
                                 sink.push(Case {
-                                    tags: vec![format!("backend={}", crate::tlscert::backend()), format!("chain={}", chain), format!("name_ok={}", name_ok), format!("aic={}", aic), format!("aih={}", aih), format!("root={}", root_added), format!("mode={}", mode), format!("set_on={}", place), format!("expect={}", if want { "accept" } else { "reject" })],
-                                    op: if pinned { "nop pinned".to_string() } else { format!("tls {} {} {} {} {}", eff_aic as u8, eff_aih as u8, chain_ok as u8, *time_ok as u8, name_ok as u8) },
-                                    impl_line: if pinned { "nop".into() } else if accepted { "accept".into() } else { "reject".into() },
+                                    tags: vec![format!("backend={}", crate::tlscert::backend()), format!("chain={}", chain), format!("name_ok={}", name_ok), format!("host={}", host_kind), format!("aic={}", aic), format!("aih={}", aih), format!("root={}", root_added), format!("mode={}", mode), format!("set_on={}", place), format!("expect={}", if want { "accept" } else { "reject" })],
+                                    op: if pinned { "nop pinned".to_string() } else if ip6 && !accepted { "nop ipv6-literal".to_string() } else { format!("tls {} {} {} {} {}", eff_aic as u8, eff_aih as u8, chain_ok as u8, *time_ok as u8, name_ok as u8) },
+                                    impl_line: if pinned || (ip6 && !accepted) { "nop".into() } else if accepted { "accept".into() } else { "reject".into() },
                                     oracle: o,
                                 });
                             }
